@@ -192,6 +192,28 @@ Definition followed_by_own_flag (groups : list (list string)) (j : nat) : bool :
   | [] :: _ => false
   end.
 
+(** Explicit don't-care region of the shadowing clause: the option is written
+    with its value glued to the short flag ("-fcv") and the active task declares
+    that very short flag as a flag that takes NO value.  In that task's grammar
+    the token is not a spelling of the core option at all but, as documented for
+    combined short flags, the cluster -f -c -v of the task -- what its further
+    letters do is outside this property.  (Hidden behind F-C18a until repair
+    dd95c66.) *)
+Definition glued_cluster_reading (groups : list (list string)) (j : nat)
+           (opt : list string) (f : string) : bool :=
+  match opt with
+  | [t] =>
+      negb (String.eqb t f) && negb (contains_char "=" t) &&
+      match active_task groups j None with
+      | Some c => match arg_of_flag c f with
+                  | Some a => negb (takes_value a)
+                  | None => false
+                  end
+      | None => false
+      end
+  | _ => false
+  end.
+
 Definition s3_placement (groups : list (list string)) (opt : list string) (j : nat)
            (flags : list string) (base front placed : result gobs) : bool :=
   match opt with
@@ -201,7 +223,7 @@ Definition s3_placement (groups : list (list string)) (opt : list string) (j : n
         (* "unless that task declares a flag of the same name (which then receives it)":
            the core values are those of the line without the option *)
         match flags, base, placed with
-        | [_], Ok _, Ok _ => same_core placed base
+        | [f], Ok _, Ok _ => glued_cluster_reading groups j opt f || same_core placed base
         | _, _, _ => true
         end
       else
